@@ -54,6 +54,40 @@ def earlyParts (has : String → Bool) : Elem → List (String × Val)
     as the printed parameter list and the printed where-clause -/
 def genericsVal (d : DeclD) : Val := .toks (d.generics.toks ++ " | " ++ d.generics.whereToks)
 
+/-- `FromGenericParam` for `syn::GenericParam` (`wrap = none`: a clone) and for
+    `ast::GenericParam<T>` (`wrap = some conv`: type parameters through `T::from_type_param`) -/
+def gparamMirror (wrap : Option (TypeParamD → Outcome Val)) : GParamD → Outcome Val
+  | .type t => (match wrap with
+      | none => .ok (.toks t.toks)
+      | some conv => (conv t).map (fun v => .variant "GenericParam" "Type" v))
+  | .lifetime s => (match wrap with
+      | none => .ok (.toks s)
+      | some _ => .ok (.variant "GenericParam" "Lifetime" (.toks s)))
+  | .const s => (match wrap with
+      | none => .ok (.toks s)
+      | some _ => .ok (.variant "GenericParam" "Const" (.toks s)))
+
+/-- `collect::<Result<Vec<_>>>()`: the values in order, or the first failure -/
+def collectFirst {β γ : Type} (f : β → Outcome γ) : List β → Outcome (List γ)
+  | [] => .ok []
+  | x :: xs => match f x with
+      | .ok v => (match collectFirst f xs with
+          | .ok vs => .ok (v :: vs)
+          | .err e => .err e
+          | .panic m => .panic m)
+      | .err e => .err e
+      | .panic m => .panic m
+
+def whereVal (g : GenericsD) : Val := if g.whereToks.isEmpty then .none else .some (.toks g.whereToks)
+
+/-- `impl FromGenerics for ast::Generics<P>`: every parameter converted in order (the first
+    failure is returned), the where-clause cloned -/
+def genericsMirror (wrap : Option (TypeParamD → Outcome Val)) (g : GenericsD) : Outcome Val :=
+  match collectFirst (gparamMirror wrap) g.params with
+  | .ok ps => .ok (.record "Generics" [("params", .list ps), ("where_clause", whereVal g)])
+  | .err e => .err e
+  | .panic m => .panic m
+
 /-- `impl ToTokens for Fields<T>`, observed with white space removed: named fields in braces with a
     trailing comma when non-empty, tuple fields in parentheses, nothing for a unit body -/
 def printFields (style : Style) (fields : List String) : String :=
